@@ -1,6 +1,7 @@
 package h
 
 import (
+	"strings"
 	"context"
 
 	"cosmossdk.io/math"
@@ -73,7 +74,7 @@ func H_C04_fee() {
 	fixed := make([]math.Int, 8)
 	rcpOK := make([]bool, 8)
 	rcp := make([]sdk.AccAddress, 8)
-	nonNumbers := []string{"", "abc", "1.5", "12a"}
+	nonNumbers := []string{"", "abc", "1.5", "12a", "115792089237316195423570985008687907853269984665640564039457584007913129639936", "1" + strings.Repeat("0", 80)} // (the last two: decimal, but beyond 256 bits)
 	for i := 0; i < n; i++ {
 		fi := &actiontypes.FeeInfo{}
 		fi.Recipient, rcpOK[i], rcp[i] = feeRecipient(verif.Choose("rcp", verif.Bound("rcpKinds")))
